@@ -104,6 +104,19 @@ func sequential(sc Scenario) ([]string, string) {
 	return out, after
 }
 
+// alone runs every body by itself, each from fresh caches: the result "it would produce running alone".
+// (The sequential run above lets a later body start from the caches an earlier one filled; an
+// interference that needs no overlap at all would hide in it.)
+func alone(sc Scenario) []string {
+	n := len(sc.Make())
+	out := make([]string, n)
+	for i := 0; i < n; i++ {
+		object.VerifResetTypeCaches()
+		out[i] = safe(sc.Make()[i])
+	}
+	return out
+}
+
 type replayIn struct {
 	Scenario string `json:"scenario"`
 	Schedule []int  `json:"schedule"`
@@ -120,7 +133,8 @@ func Check(r *ev.Run, replay string) {
 		}
 		for _, sc := range scs {
 			if sc.Name == in.Scenario {
-				seq, after := sequential(sc)
+				_, after := sequential(sc)
+				seq := alone(sc)
 				x, e := dsched.Replay(scenario(sc, seq, after), in.Schedule)
 				fmt.Printf("%s\nschedule %v\ntrace %v\nraces %v\nengine error %q\n", sc.Name, in.Schedule, x.Trace, x.Races, e)
 				if len(x.Races) > 0 {
@@ -143,6 +157,15 @@ func Check(r *ev.Run, replay string) {
 				continue
 			}
 			seq, after := sequential(sc)
+			// the expected results are those of each evaluation alone; one after the other (no overlap at all)
+			// must already give the same
+			al := alone(sc)
+			for i := range al {
+				if al[i] != seq[i] {
+					r.Report("C09:result-differs:sequential", fmt.Sprintf("%s\n  evaluation %d returns %s when it runs after the other evaluations have finished, and %s alone", sc.Name, i, seq[i], al[i]), replayIn{sc.Name, nil}, seq[i], al[i])
+				}
+			}
+			seq = al
 			b := bound
 			if !r.Thorough() && len(seq) > 2 {
 				b = 1 // quick: the three-evaluation scenarios with one preemption (two exceed the execution budget)
@@ -171,7 +194,7 @@ func Check(r *ev.Run, replay string) {
 	r.Set("scenarios", len(scs))
 	r.Set("preemption_bound", bound)
 	raceSupplement(r)
-	r.Set("rule", fmt.Sprintf("%d scenarios of 2-3 concurrent evaluations on separate VMs that meet on one piece of package-level or shared state (Go type registries via globals, field access and proxy calls; codec registry; a shared importer; one compiled code object on two VMs; two clones of one VM); the package caches are reset before every execution; every schedule of the lock and access hook points with at most %d preemptions (quick: 1 for the scenarios with three evaluations); oracle: vector-clock happens-before race detection on the hooked accesses + each result equals the sequential result. The same bodies also run free (6 rounds, thorough 40, x 4 copies of every body at once, caches reset per round) in a build with Go's race detector, which reports unsynchronised accesses that no hook names.", len(scs), bound))
+	r.Set("rule", fmt.Sprintf("%d scenarios of 2-3 concurrent evaluations on separate VMs that meet on one piece of package-level or shared state (Go type registries via globals, field access and proxy calls; codec registry; a shared importer; one compiled code object on two VMs; two clones of one VM); the package caches are reset before every execution; every schedule of the lock and access hook points with at most %d preemptions (quick: 1 for the scenarios with three evaluations); oracle: vector-clock happens-before race detection on the hooked accesses + each result equals the result of that evaluation running alone from fresh caches (and one after the other gives the same). The same bodies also run free (6 rounds, thorough 40, x 4 copies of every body at once, caches reset per round) in a build with Go's race detector, which reports unsynchronised accesses that no hook names.", len(scs), bound))
 }
 
 func signature(v string) string {
